@@ -240,7 +240,7 @@ def main():
             print(f"STALE-FINDING: property={pid} not observed in this run: {fp_str(fp)}")
 
     confirmed = 0
-    PRINT_CAP = 25
+    PRINT_CAP = int(os.environ.get("VERIF_CONFIRM_CAP", "25"))   # seeded-change evaluation confirms fewer fingerprints
     rpdir = os.path.join(os.environ.get("VERIF_REPLAY_DIR") or os.path.join(VERIF, "replay"), pid)
     os.makedirs(rpdir, exist_ok=True)
     for fp in new_fps[:PRINT_CAP]:
